@@ -35,6 +35,15 @@ for tgt, c in R.contracts.items():
             if r.status != "proved":
                 r1 = discharge_singles(o.name, o.kind, o.line, to_smt2(o, []))
                 r = r1 if r1 is not None else discharge(o, bg, timeout_ms=10000)
+                if r.status == "unknown" and getattr(o, "alt", None):
+                    from pyvc.symex import Obligation as _Ob
+                    o2 = _Ob(o.name, list(o.assumptions) + list(o.alt), o.goal, o.kind, o.line, o.extra)
+                    for bgx in ([], bg):
+                        ra = discharge(o2, bgx, timeout_ms=8000)
+                        if ra.status == "proved":
+                            r = ra
+                            r.backend = "z3 (alt)"
+                            break
         else:
             r.backend = "z3 (qf)"
         flag = {"proved": "ok ", "refuted": "FAIL", "unknown": "??? "}[r.status]
